@@ -150,7 +150,7 @@ def _one_file_per_isolated_subject(ctx, files):
 def run(ctx):
     ctx.build(BIN)
     # --- the contract itself, exhaustively for small constants
-    ctx.tlc_mc("MC_BlobStore", required_actions=(), note="laws of the BlobStore contract, 3 ids x 3 records x 2 keys")
+    ctx.tlc_mc("MC_BlobStore", required_actions=(), note="laws of the BlobStore contract, 3 ids x 2 records x 2 keys")
     # --- B2: all mutating histories of length L, expected state after every step computed by TLC
     gen_cfg = "MC_BlobStoreGen4.cfg" if ctx.thorough else "MC_BlobStoreGen.cfg"
     beh, nbeh = ctx.tlc_generate("MC_BlobStoreGen", cfg=gen_cfg, timeout=1500, jvm="-Xmx8g")
